@@ -69,7 +69,7 @@ theorem mkSpacetime_real (vmax tw : ℝ) (bd : Bool) (lo hi : ℝ) (inner : Spac
 /-- zero to itself, symmetric; when finite: non-negative, and positive between states that are not `equalStates`
 (for ANY two positive weights, however small — the code has no cut-off here).  The triangle inequality is not claimed
 (`isMetricSpace()` is false). -/
-theorem spacetime_laws (vmax w0 w1 : ℝ) (bd : Bool) (lo hi : ℝ) (inner : Space ℝ) (_hv : 0 < vmax) (h0 : 0 < w0)
+theorem spacetime_laws (vmax w0 w1 : ℝ) (bd : Bool) (lo hi : ℝ) (inner : Space ℝ) (h0 : 0 < w0)
     (h1 : 0 < w1) (L : Laws inner) :
     (∀ a, inDom (SpaceX.spacetime vmax w0 w1 bd lo hi inner).layout a →
       distX (.spacetime vmax w0 w1 bd lo hi inner) a a = some 0) ∧
@@ -114,6 +114,47 @@ theorem spacetime_laws (vmax w0 w1 : ℝ) (bd : Bool) (lo hi : ℝ) (inner : Spa
         have : 0 < w1 * |t1 - t2| := mul_pos h1 hpos
         have : 0 ≤ w0 * dist inner a1 b1 := mul_nonneg h0.le hn
         linarith
+
+/-! ### Torus / Möbius / Klein / Sphere with weights changed by `setSubspaceWeight` (F361) -/
+theorem mobiusDistW_r (w0 w1 u1 v1 u2 v2 : ℝ) :
+    mobiusDistW w0 w1 u1 v1 u2 v2 =
+      if |u2 - u1| ≤ Real.pi then w0 * so2Dist u1 u2 + w1 * |v1 - v2| else w0 * so2Dist u1 u2 + |(-v2) - v1| := by
+  have h : mobiusDistW w0 w1 u1 v1 u2 v2 =
+      if |u2 - u1| ≤ Real.pi then ((0:ℕ):ℝ) + w0 * so2Dist u1 u2 + w1 * rvDist [v1] [v2]
+      else ((0:ℕ):ℝ) + w0 * so2Dist u1 u2 + Real.sqrt ((-v2 - v1) * (-v2 - v1)) := rfl
+  rw [h, Seam.rvDist1_r, Real.sqrt_mul_self_eq_abs]
+  norm_num
+
+theorem extent2_r (w0 w1 e0 e1 : ℝ) (h0 : 0 < w0) (h1 : 0 < w1) : extent2 false w0 w1 e0 e1 = w0 * e0 + w1 * e1 := by
+  have k0 : @LT.lt ℝ instNumReal.toLT (Num.ofNat 0) w0 := by simpa using h0
+  have k1 : @LT.lt ℝ instNumReal.toLT (Num.ofNat 0) w1 := by simpa using h1
+  simp only [extent2, Bool.false_eq_true, if_false, decide_eq_true_eq, k0, k1, if_true]
+  simp
+
+/-- with the default weights the weighted model IS the unweighted one -/
+theorem mobiusDistW_default (u1 v1 u2 v2 : ℝ) : mobiusDistW 1 1 u1 v1 u2 v2 = mobiusDist u1 v1 u2 v2 := by
+  rw [mobiusDistW_r, Seam.mobiusDist_r]; simp
+
+/-- F361 witness: Möbius strip (intervalMax 1) with weights `(1, 1/10)`: the in-bounds states `(-1.6, 1)`, `(1.6, 1)` are at
+distance `2π − 3.2 + 2` (the gluing branch ignores the second weight), the reported extent is `π + 1/5`. -/
+theorem mobius_weighted_extent_exceeded :
+    extentX (.weighted (.mobius 1 1) 1 (1 / 10) : SpaceX ℝ) = some (Real.pi + 1 / 5) ∧
+    distX (.weighted (.mobius 1 1) 1 (1 / 10) : SpaceX ℝ) (.ccons (.so2 (-1.6)) (.ccons (.rv [1]) .cnil))
+      (.ccons (.so2 1.6) (.ccons (.rv [1]) .cnil)) = some (2 * Real.pi - 3.2 + 2) ∧
+    Real.pi + 1 / 5 < 2 * Real.pi - 3.2 + 2 := by
+  have hpl := Real.pi_gt_d2
+  have hpu := Real.pi_lt_d2
+  refine ⟨?_, ?_, by linarith⟩
+  · simp only [extentX, extentW]
+    rw [extent2_r _ _ _ _ (by norm_num) (by norm_num), Seam.rvExtent1_r]
+    norm_num
+  · simp only [distX]
+    rw [mobiusDistW_r, Seam.so2Dist_r]
+    have e1 : |(1.6:ℝ) - (-1.6)| = 3.2 := by norm_num
+    have e2 : |(-1.6:ℝ) - 1.6| = 3.2 := by norm_num [abs_of_neg]
+    have e3 : |(-1:ℝ) - 1| = 2 := by norm_num [abs_of_neg]
+    rw [e1, e2, e3, if_neg (by linarith), if_pos (by linarith)]
+    norm_num
 
 /-! ### zero weights -/
 /-- a compound with a zero weight still CLAIMS to be a metric space (all components do) … -/
